@@ -1,6 +1,7 @@
 package pure
 
 import (
+	"sync/atomic"
 	"context"
 	"errors"
 	"fmt"
@@ -110,6 +111,24 @@ type retryCase struct {
 	Dice        []float64
 	Breaker     int // 0 none, else failure threshold
 	LongFail    int // that many transient failures come before Script (long failure runs, large MaxAttempts)
+	Cfg         int // backoff configuration: 0 {50ms, 400ms, x2, jitter 0.5}, 1 the zero value (no wait at all), 2 {50ms, 400ms, x2, jitter 0}
+}
+
+// retryBackoffs: the configurations RetryWithBackoff is driven with.
+var retryBackoffs = []leader.BackoffConfig{
+	{InitialBackoff: 50 * time.Millisecond, MaxBackoff: 400 * time.Millisecond, BackoffMultiplier: 2, Jitter: 0.5},
+	{},
+	{InitialBackoff: 50 * time.Millisecond, MaxBackoff: 400 * time.Millisecond, BackoffMultiplier: 2, Jitter: 0},
+}
+
+// refBackoff: base wait before invocation k+1 and the jitter fraction, for configuration cfg.
+func refBackoff(cfg, k int) (bo, jit float64) {
+	bc := retryBackoffs[cfg]
+	bo = float64(bc.InitialBackoff) * math.Pow(bc.BackoffMultiplier, float64(k))
+	if bo > float64(bc.MaxBackoff) {
+		bo = float64(bc.MaxBackoff)
+	}
+	return bo, bc.Jitter
 }
 
 var errTransientX = errors.New("temporary glitch")
@@ -123,7 +142,7 @@ func checkRetry(t *testing.T, c retryCase, hooked bool) (sig, msg string) {
 		}
 		c.Script = append(long, c.Script...)
 	}
-	cfg := leader.RetryConfig{MaxAttempts: c.MaxAttempts, BackoffConfig: leader.BackoffConfig{InitialBackoff: 50 * time.Millisecond, MaxBackoff: 400 * time.Millisecond, BackoffMultiplier: 2, Jitter: 0.5}}
+	cfg := leader.RetryConfig{MaxAttempts: c.MaxAttempts, BackoffConfig: retryBackoffs[c.Cfg]}
 	synctest.Test(t, func(t *testing.T) {
 		di := 0
 		var dice []float64
@@ -147,9 +166,12 @@ func checkRetry(t *testing.T, c retryCase, hooked bool) (sig, msg string) {
 		t0 := time.Now()
 		var calls []time.Duration
 		var cancelledAt time.Duration = -1
+		var cancelledAtA atomic.Int64
+		cancelledAtA.Store(math.MaxInt64)
 		doCancel := func() {
 			if cancelledAt < 0 {
 				cancelledAt = time.Since(t0)
+				cancelledAtA.Store(int64(cancelledAt))
 				cancel()
 			}
 		}
@@ -157,14 +179,31 @@ func checkRetry(t *testing.T, c retryCase, hooked bool) (sig, msg string) {
 			doCancel()
 		}
 		finished := false
+		invokedCancelled := -1
 		fn := func() error {
 			calls = append(calls, time.Since(t0))
 			k := len(calls) - 1
+			// (a cancellation that is concurrent with the start of the invocation - issued by a timer callback at
+			// the same virtual instant - can go unseen by any implementation: only cancellations that happened
+			// before count, i.e. by the caller's own goroutine or at an earlier instant)
+			if ctx.Err() != nil && invokedCancelled < 0 && (c.CancelMode == 1 || c.CancelMode == 2 || time.Duration(cancelledAtA.Load()) < time.Since(t0)) {
+				invokedCancelled = k
+			}
 			if c.CancelMode == 2 && k == c.CancelK {
 				doCancel()
 			}
 			if c.CancelMode == 3 && k == c.CancelK {
 				time.AfterFunc(c.CancelOff, doCancel)
+			}
+			if c.CancelMode == 4 && k == c.CancelK {
+				// at the very instant the wait that follows this invocation ends (exact when there is no jitter
+				// or the dice are known: 0.5 when none are supplied)
+				bo, jit := refBackoff(c.Cfg, k)
+				f := 0.5
+				if hooked && len(c.Dice) > 0 {
+					f = c.Dice[k%len(c.Dice)]
+				}
+				time.AfterFunc(time.Duration(bo+bo*jit*(2*f-1)), doCancel)
 			}
 			out := 0
 			if k < len(c.Script) {
@@ -191,6 +230,10 @@ func checkRetry(t *testing.T, c retryCase, hooked bool) (sig, msg string) {
 			shownCase.Script = append(append([]int(nil), shownCase.Script[:3]...), shownCase.Script[len(shownCase.Script)-min(8, len(shownCase.Script)-3):]...)
 		}
 		desc := fmt.Sprintf("case=%+v (script: LongFail transient failures, then the tail shown) calls at %s, returned %v", shownCase, shown, err)
+		if invokedCancelled >= 0 {
+			sig, msg = "C17 operation-invoked-after-context-cancellation", desc+fmt.Sprintf("; invocation %d began with the context already cancelled (cancelled at %v)", invokedCancelled, cancelledAt)
+			return
+		}
 		if len(calls) != after {
 			sig, msg = "C17 retry-invokes-after-return", desc
 			return
@@ -226,6 +269,14 @@ func checkRetry(t *testing.T, c retryCase, hooked bool) (sig, msg string) {
 			if c.CancelMode == 3 && k == c.CancelK {
 				cancelAt = now + c.CancelOff
 			}
+			if c.CancelMode == 4 && k == c.CancelK {
+				bo, jit := refBackoff(c.Cfg, k)
+				f := 0.5
+				if hooked && len(c.Dice) > 0 {
+					f = c.Dice[k%len(c.Dice)]
+				}
+				cancelAt = now + time.Duration(bo+bo*jit*(2*f-1))
+			}
 			out := 0
 			if k < len(c.Script) {
 				out = c.Script[k]
@@ -242,21 +293,22 @@ func checkRetry(t *testing.T, c retryCase, hooked bool) (sig, msg string) {
 				wantErr = "max"
 				break
 			}
-			bo := float64(50*time.Millisecond) * math.Pow(2, float64(k))
-			if bo > float64(400*time.Millisecond) {
-				bo = float64(400 * time.Millisecond)
-			}
-			lo, hi := time.Duration(bo*0.5), time.Duration(bo*1.5)
+			bo, jit := refBackoff(c.Cfg, k)
+			lo, hi := time.Duration(bo*(1-jit)), time.Duration(bo*(1+jit))
 			if hooked {
 				f := 0.5
 				if len(c.Dice) > 0 {
 					f = c.Dice[k%len(c.Dice)]
 				}
-				w := time.Duration(bo + bo*0.5*(2*f-1))
+				w := time.Duration(bo + bo*jit*(2*f-1))
 				lo, hi = w, w
 			}
 			if cancelAt >= 0 {
 				switch {
+				case c.CancelMode == 4 && k == c.CancelK:
+					// timer and cancellation fall on the same instant: the wait may end either way, and so may
+					// any number of further waits of length zero
+					either = true
 				case cancelAt <= now, cancelAt < now+lo-2:
 					wantErr = "ctx"
 				case cancelAt <= now+hi+2:
@@ -296,17 +348,14 @@ func checkRetry(t *testing.T, c retryCase, hooked bool) (sig, msg string) {
 		// gaps between invocations equal the computed backoff (dice known), else lie in the jitter band
 		for k := 1; k < n; k++ {
 			gap := calls[k] - calls[k-1]
-			bo := float64(50*time.Millisecond) * math.Pow(2, float64(k-1))
-			if bo > float64(400*time.Millisecond) {
-				bo = float64(400 * time.Millisecond)
-			}
+			bo, jit := refBackoff(c.Cfg, k-1)
 			if hooked && k-1 < len(dice) {
-				want := time.Duration(bo + bo*0.5*(2*dice[k-1]-1))
+				want := time.Duration(bo + bo*jit*(2*dice[k-1]-1))
 				if d := gap - want; d < -2 || d > 2 {
 					sig, msg = "C17 retry-wait-differs-from-backoff", desc+fmt.Sprintf("; gap before invocation %d is %v, computed backoff %v", k, gap, want)
 					return
 				}
-			} else if float64(gap) < bo*0.5-2 || float64(gap) > bo*1.5+2 {
+			} else if float64(gap) < bo*(1-jit)-2 || float64(gap) > bo*(1+jit)+2 {
 				sig, msg = "C17 retry-wait-outside-jitter-band", desc+fmt.Sprintf("; gap before invocation %d is %v", k, gap)
 				return
 			}
@@ -327,7 +376,11 @@ func genRetryCase() *rapid.Generator[retryCase] {
 		for i := 0; i < n; i++ {
 			c.Script = append(c.Script, rapid.SampledFrom([]int{1, 1, 1, 0, 2}).Draw(t, "o"))
 		}
-		c.CancelMode = rapid.SampledFrom([]int{0, 0, 1, 2, 3}).Draw(t, "cancel")
+		c.CancelMode = rapid.SampledFrom([]int{0, 0, 1, 2, 3, 4}).Draw(t, "cancel")
+		c.Cfg = rapid.SampledFrom([]int{0, 0, 1, 2}).Draw(t, "backoff_cfg")
+		if c.Cfg == 1 && c.LongFail > 0 && c.MaxAttempts == 0 {
+			c.Cfg = 0 // (no limit and no wait: the script's end is the only way out, keep those runs timed)
+		}
 		c.CancelK = rapid.IntRange(0, 4).Draw(t, "k")
 		c.CancelOff = time.Duration(rapid.Int64Range(1, int64(700*time.Millisecond)).Draw(t, "off"))
 		nd := rapid.IntRange(0, 4).Draw(t, "nd")
@@ -462,7 +515,7 @@ func TestC17(t *testing.T) {
 		hooked = false
 		r.Assume("jitter overlay inactive: dice unknown, only the jitter band is checked")
 	}
-	r.Rule = "(a) CalculateBackoff on generated configurations (initial 1ns-1h, cap 0-1y, multiplier 0.5-16, jitter 0-1, attempt 0-64 and huge values up to MaxInt, dice supplied through the jitter hook with extremes over-weighted) against an independent big-float computation of min(cap, initial*multiplier^n) and the exact formula with the known dice; (b) RetryWithBackoff under a virtual clock on generated scripts of outcomes (success / transient / permanent), MaxAttempts 0-6 (a fifth of the cases: 7-300 with runs of MaxAttempts-2 .. MaxAttempts+40 or 300 consecutive transient failures), cancellation never / before the first call / during invocation k / during wait k, optional circuit breaker, against a reference run (invocation count, result class, exact waits); (c) CircuitBreaker as a state machine (ok / fail operations that take 0 .. 2 x cooldown of virtual time / advance by cooldown-1ns, cooldown, cooldown+1ns) against a closed/open model; (d, simulator part) every acquisition round observed in simulated elections. Non-trivial = attempt>=1 with the cap reached or a dice extreme; scripts with >=2 invocations; breaker histories that open at least once; distinct by hash of the case."
+	r.Rule = "(a) CalculateBackoff on generated configurations (initial 1ns-1h, cap 0-1y, multiplier 0.5-16, jitter 0-1, attempt 0-64 and huge values up to MaxInt, dice supplied through the jitter hook with extremes over-weighted) against an independent big-float computation of min(cap, initial*multiplier^n) and the exact formula with the known dice; (b) RetryWithBackoff under a virtual clock on generated scripts of outcomes (success / transient / permanent), MaxAttempts 0-6 (a fifth of the cases: 7-300 with runs of MaxAttempts-2 .. MaxAttempts+40 or 300 consecutive transient failures), backoff configuration {50ms..400ms x2 jitter 0.5, the zero value (no wait), jitter 0}, cancellation never / before the first call / during invocation k / during wait k / at the very instant wait k ends, optional circuit breaker, against a reference run (invocation count, result class, exact waits) and directly: no invocation begins with the context already cancelled; (c) CircuitBreaker as a state machine (ok / fail operations that take 0 .. 2 x cooldown of virtual time / advance by cooldown-1ns, cooldown, cooldown+1ns) against a closed/open model; (d, simulator part) every acquisition round observed in simulated elections. Non-trivial = attempt>=1 with the cap reached or a dice extreme; scripts with >=2 invocations; breaker histories that open at least once; distinct by hash of the case."
 	r.Assume("backoff domain: positive initial backoff, multiplier in [0.5,16], jitter in [0,1], caps up to one year (jittered value fits int64); tolerance 16ns + 1e-9 relative for float64 rounding")
 	var rp c17Replay
 	if is, err := report.LoadReplay(&rp); is {
